@@ -427,7 +427,15 @@ def gen_atom(repo: str) -> str:
             return x.NAME(*args, **kwargs, )
         else:
             return _ELEMENTWISE_FUNCTIONS['NAME'](x, *args, **kwargs, )""".split())
-    if norm != want:
+    # since fix d7575dc the numpy branch first turns a first argument that is exactly a Python int into a float (so that
+    # `abs(1)^(-2)` is not an integer power); an Atom never reaches that line, so the dispatch modelled here is unchanged
+    want_coercing = "".join("""def NAME(x, *args, **kwargs):
+        if hasattr(x, 'NAME'):
+            return x.NAME(*args, **kwargs, )
+        else:
+            x = float(x) if type(x) is int else x
+            return _ELEMENTWISE_FUNCTIONS['NAME'](x, *args, **kwargs, )""".split())
+    if norm not in (want, want_coercing):
         raise Untranslatable("adaptations.py: the dispatch template is not `hasattr(x, name) -> x.name(*args) else numpy`")
     out.append("/-- names offered to equations by `adaptations.py` (`_ELEMENTWISE_FUNCTIONS`); each dispatches on its FIRST argument:")
     out.append("`x.name(*args)` when `hasattr(x, name)`, the numpy/scipy function otherwise (which raises on an `Atom`) -/")
